@@ -4,7 +4,11 @@ package main
 // earlier, shape-bound rule caught only by accident.
 
 import (
+	"go/token"
 	"go/types"
+	"math/big"
+	"sort"
+	"strings"
 
 	"golang.org/x/tools/go/ssa"
 )
@@ -28,6 +32,33 @@ func more3ReaderChain(p *Program, r *Report) {
 	ioReader := func(t types.Type) bool {
 		nt, ok := types.Unalias(t).(*types.Named)
 		return ok && nt.Obj().Pkg() != nil && nt.Obj().Pkg().Path() == "io" && nt.Obj().Name() == "Reader"
+	}
+	// chained: the value is the installed body reader, or a reader some constructor of the package built on one
+	var chained func(v ssa.Value, depth int) bool
+	chained = func(v ssa.Value, depth int) bool {
+		rs := Origins(v, nil)
+		if hasCallRoot(rs, fiberCtx+".Locals", "body-reader") {
+			return true
+		}
+		if depth > 3 {
+			return false
+		}
+		for _, rt := range rs {
+			cc, isCall := rt.Call.(*ssa.Call)
+			if rt.Kind != "call" || !isCall {
+				continue
+			}
+			g := cc.Call.StaticCallee()
+			if g == nil || g.Pkg == nil || g.Pkg.Pkg.Path() != modPath+"/s3api/utils" {
+				continue
+			}
+			for i, prm := range g.Params {
+				if ioReader(prm.Type()) && i < len(cc.Call.Args) && chained(cc.Call.Args[i], depth+1) {
+					return true
+				}
+			}
+		}
+		return false
 	}
 	n := 0
 	for _, name := range []string{mwPkg + ".VerifyV4Signature$1", mwPkg + ".VerifyPresignedV4Signature$1", mwPkg + ".VerifyMD5Body$1"} {
@@ -67,7 +98,7 @@ func more3ReaderChain(p *Program, r *Report) {
 							continue
 						}
 						ctors++
-						if !hasCallRoot(Origins(cc.Call.Args[i], nil), fiberCtx+".Locals", "body-reader") {
+						if !chained(cc.Call.Args[i], 0) {
 							ok = false
 							what = fnName(g)
 						}
@@ -80,4 +111,926 @@ func more3ReaderChain(p *Program, r *Report) {
 	if n < 3 {
 		broken("R-C02-8: only %d body-reader installs found in the middlewares", n)
 	}
+}
+
+func init() {
+	extraRules["C01"] = append(extraRules["C01"], more3NoHardLinks)
+	extraRules["C09"] = append(extraRules["C09"], more3NoHardLinks)
+	extraRules["C03"] = append(extraRules["C03"], more3VerdictAfterLoop, more3BatchDeleteFailsClosed)
+	extraRules["C14"] = append(extraRules["C14"], more3VerdictAfterLoop)
+	extraRules["C07"] = append(extraRules["C07"], more3SkipAllOnlyWhenFull)
+	extraRules["C08"] = append(extraRules["C08"], more3CompleteValidatesFirst)
+	for _, id := range []string{"C02", "C10", "C12", "C17", "C20", "C05"} {
+		extraRules[id] = append(extraRules[id], more3NoPackageLevelState)
+	}
+	extraRules["C11"] = append(extraRules["C11"], more3TempFilesUnderTmpDir)
+	extraRules["C05"] = append(extraRules["C05"], more3TempFilesUnderTmpDir)
+	extraRules["C15"] = append(extraRules["C15"], more3ReadsDoNotWrite)
+	extraRules["C17"] = append(extraRules["C17"], more3CacheMapNotReplaced)
+	extraRules["C18"] = append(extraRules["C18"], more3ProxyCreateThenTag)
+	extraRules["C19"] = append(extraRules["C19"], more3EventKeyVerbatim, more3OneDeliveryAttempt)
+}
+
+// inLoopBody: b is reached by leaving a loop from somewhere other than the loop's header (the header's exit is
+// the loop's normal end; leaving from any other block of the cycle is a break or a return written in the body).
+func inLoopBody(f *ssa.Function, b *ssa.BasicBlock) bool {
+	cyc := map[*ssa.BasicBlock]bool{}
+	for _, x := range f.Blocks {
+		if inCycle(f, x) {
+			cyc[x] = true
+		}
+	}
+	if cyc[b] {
+		return true
+	}
+	header := map[*ssa.BasicBlock]bool{}
+	for x := range cyc {
+		for _, pr := range x.Preds {
+			if !cyc[pr] {
+				header[x] = true
+			}
+		}
+	}
+	for x := range cyc {
+		if header[x] {
+			continue
+		}
+		for _, y := range x.Succs {
+			if cyc[y] {
+				continue
+			}
+			if y == b || reachableAvoiding(f, y, nil, cyc)[b] {
+				return true
+			}
+		}
+	}
+	return false
+}
+
+func inCycle(f *ssa.Function, b *ssa.BasicBlock) bool {
+	for _, s := range b.Succs {
+		if reachable(f, s, nil)[b] {
+			return true
+		}
+	}
+	return false
+}
+
+// ---- R-C01-8: keys never share an inode ----------------------------------------------------------------------
+
+func more3NoHardLinks(p *Program, r *Report) {
+	rule := "R-C01-8"
+	r.Rule(rule, "objects and versions never share storage: no function of the posix or scoutfs backend calls os.Link or os.Symlink (publication is the temp file's own linkat/rename; a copy or a saved version that is a hard link to its source changes whenever the source's attributes are written by path)", 1)
+	pk := []string{"backend/posix", "backend"}
+	if p.SSAPkg["backend/scoutfs"] != nil {
+		pk = append(pk, "backend/scoutfs")
+	}
+	n := 0
+	for _, f := range p.FuncsIn(pk...) {
+		n++
+		for _, c := range callsTo(f, "os.Link", "os.Symlink") {
+			r.Viol(rule, fnName(f)+"/"+calleeName(c), p.Pos(c.Pos()), calleeName(c)+" between object paths: two keys (or a key and its saved version) share one inode and its attributes; a later write by path to one changes what the other returns")
+		}
+	}
+	r.Ok(rule, "backend/no-hard-links", "backend", itoa(n)+" functions scanned")
+}
+
+// ---- R-C14-6: the verdict is taken after all statements / from inside a search loop only positively ----------
+
+func more3VerdictAfterLoop(p *Program, r *Report) {
+	rule := "R-C14-6"
+	r.Rule(rule, "order of statements and of map iteration does not matter: the policy evaluator returns an allowing result only after its loop over the statements has ended (a matching Allow must not end the scan: a later Deny still overrides), and the matcher loops over actions, resources and principals return only the positive verdict from inside the loop (a negative verdict taken from the first element visited depends on map order)", 3)
+	f := p.Func("(*auth.BucketPolicy).isAllowed")
+	bad := ""
+	for _, ret := range returnsOf(f) {
+		for _, lf := range valueLeaves(ret.Results[0], ret.Block()) {
+			allow := false
+			if b, ok := constBool(lf.val); ok && b {
+				allow = true
+			}
+			if sv, ok := constString(lf.val); ok && sv == "Allow" {
+				allow = true
+			}
+			if allow && inLoopBody(f, ret.Block()) {
+				bad = p.Pos(ret.Pos())
+			}
+		}
+	}
+	r.Check(bad == "", rule, fnName(f)+"/allow-after-scan", p.Pos(f.Pos()), "allowing result only after the statement loop", "the evaluator returns an allowing result from inside the loop over the statements (at "+bad+"): a Deny statement that comes later in the document no longer overrides")
+	for _, name := range []string{"(auth.Actions).FindMatch", "(auth.Resources).FindMatch"} {
+		g := p.Func(name)
+		bad := ""
+		for _, ret := range returnsOf(g) {
+			if !inLoopBody(g, ret.Block()) {
+				continue
+			}
+			for _, lf := range valueLeaves(ret.Results[0], ret.Block()) {
+				if b, ok := constBool(lf.val); !ok || !b {
+					// a computed or negative result from inside the loop: only fine when the block is reached on a
+					// true edge of the value itself (return x where x was just tested true)
+					if !ok && truthOnEdge(lf.val, lf.from, lf.to) > 0 {
+						continue
+					}
+					bad = p.Pos(ret.Pos())
+				}
+			}
+		}
+		r.Check(bad == "", rule, name+"/positive-only-from-loop", p.Pos(g.Pos()), "only `true` is returned from inside the search loop", "the matcher returns a non-positive verdict from inside its loop over the collection (at "+bad+"): with several patterns the answer depends on which one the map iteration visits first")
+	}
+}
+
+// ---- R-C03-3 (strengthened): a refused key stops the batch ---------------------------------------------------
+
+func more3BatchDeleteFailsClosed(p *Program, r *Report) {
+	rule := "R-C03-3"
+	f := p.Func("(s3api/controllers.S3ApiController).DeleteObjects")
+	var targets []*ssa.BasicBlock
+	for _, c := range callsIn(f) {
+		if isBackendCall(c) && c.Common().Method.Name() == "DeleteObjects" {
+			targets = append(targets, c.Block())
+		}
+	}
+	n := 0
+	for _, c := range callsTo(f, fnVerifyAccess) {
+		if !inCycle(f, c.Block()) {
+			continue
+		}
+		n++
+		ok, why := noTargetAfterFailure(f, c, targets)
+		r.Check(ok && len(targets) > 0, rule, fnName(f)+"/per-key-refusal-stops-the-batch#"+itoa(n), p.Pos(c.Pos()), "be.DeleteObjects unreachable once a key was refused", "the batch delete is still reachable after VerifyAccess refused one of its keys ("+why+"): the refusal is lost (e.g. assigned to a shadowed variable) and objects the caller may not delete are deleted")
+	}
+	if n == 0 {
+		r.Viol(rule, fnName(f)+"/per-key-refusal-stops-the-batch", p.Pos(f.Pos()), "no per-key VerifyAccess in a loop before the batch delete")
+	}
+}
+
+// ---- R-C07-8: a listing walk ends early only when the page is full -------------------------------------------
+
+func more3SkipAllOnlyWhenFull(p *Program, r *Report) {
+	rule := "R-C07-8"
+	r.Rule(rule, "a listing ends early only because the page is full: in the callbacks of backend.Walk and WalkVersions fs.SkipAll is returned only behind a test of a flag that is set where the number of collected entries is compared with max (directory visiting order is not key order: ending the walk because an entry sorts after the prefix loses keys)", 6)
+	n := 0
+	for _, name := range []string{"backend.Walk", "backend.WalkVersions"} {
+		outer := p.Func(name)
+		for _, cb := range walkCallbacks(outer) {
+			// cells that are set to true behind a comparison with max
+			full := map[ssa.Value]bool{}
+			for _, b := range cb.Blocks {
+				for _, in := range b.Instrs {
+					st, ok := in.(*ssa.Store)
+					if !ok {
+						continue
+					}
+					if bv, isB := constBool(st.Val); !isB || !bv {
+						continue
+					}
+					var cut []edge
+					for _, ce := range condEdgesOf(cb) {
+						if ce.atoms["param:max"] {
+							cut = append(cut, ce.holds, ce.fails)
+						}
+					}
+					if len(cut) > 0 && !reachable(cb, nil, cut)[b] {
+						full[st.Addr] = true
+					}
+				}
+			}
+			var fullEdges []edge
+			for _, ce := range condEdgesOf(cb) {
+				if u, ok := ce.cond.(*ssa.UnOp); ok && full[u.X] {
+					fullEdges = append(fullEdges, ce.holds)
+				}
+				if ce.atoms["param:max"] {
+					fullEdges = append(fullEdges, ce.holds, ce.fails)
+				}
+			}
+			k := 0
+			for _, s := range errReturnSites(cb) {
+				isAll := false
+				if u, ok := s.val.(*ssa.UnOp); ok {
+					if g, ok := u.X.(*ssa.Global); ok && g.Name() == "SkipAll" {
+						isAll = true
+					}
+				}
+				if !isAll {
+					continue
+				}
+				k++
+				n++
+				r.Check(len(fullEdges) > 0 && !siteReachable(cb, s, fullEdges), rule, fnName(cb)+"/SkipAll#"+itoa(k), p.Pos(s.ret.Pos()), "behind the page-full test", "fs.SkipAll is returned without the page being full: the walk visits names in directory order, which is not key order (a directory `logs` comes before its sibling `logs-2024.txt`), so keys that match are never visited")
+			}
+		}
+	}
+	if n < 4 {
+		broken("R-C07-8: only %d fs.SkipAll returns found in the walk callbacks", n)
+	}
+}
+
+// ---- R-C08-8 / R-C08-9: completion validates before it touches the namespace; part order is strict ----------
+
+func more3CompleteValidatesFirst(p *Program, r *Report) {
+	rule := "R-C08-8"
+	r.Rule(rule, "a refused completion leaves nothing behind, and part order is strict: in posix.CompleteMultipartUpload no return of a part-list refusal (InvalidPart, InvalidPartOrder, EntityTooSmall) is reachable after backend.MkdirAll created the key's parent directories; and the order test refuses a part number equal to its predecessor's", 2)
+	f := p.Func(posixP + "CompleteMultipartUpload")
+	byVal := map[string]string{}
+	for nm, v := range pkgConstsOfType(p, "s3err", "ErrorCode") {
+		byVal[v] = nm
+	}
+	// where a part-list refusal is produced
+	refusalOf := func(c ssa.CallInstruction) string {
+		if calleeName(c) != "s3err.GetAPIError" {
+			return ""
+		}
+		names, _ := constNames(p, callArgs(c)[0])
+		for _, v := range names {
+			if nm := byVal[v]; nm == "ErrInvalidPart" || nm == "ErrInvalidPartOrder" || nm == "ErrEntityTooSmall" {
+				return nm
+			}
+		}
+		return ""
+	}
+	bad := ""
+	nm := 0
+	for _, c := range callsTo(f, "backend.MkdirAll") {
+		nm++
+		reach := reachable(f, c.Block(), nil)
+		for _, c2 := range callsIn(f) {
+			if what := refusalOf(c2); what != "" && reach[c2.Block()] {
+				bad = what + " at " + p.Pos(c2.Pos())
+			}
+		}
+	}
+	r.Check(nm > 0 && bad == "", rule, fnName(f)+"/validate-before-mkdir", p.Pos(f.Pos()), "parents are created only after the part list was accepted", "a refusal of the part list ("+bad+") is still reachable after the key's parent directories were created: a rejected request leaves directory objects behind that HEAD and listings show")
+	// strict order: the edge that leads to InvalidPartOrder is taken when the two part numbers are equal
+	okStrict := false
+	for _, ce := range condEdgesOf(f) {
+		if ce.binop == nil || !ce.atoms["field:PartNumber"] {
+			continue
+		}
+		var refuseOnTrue bool
+		found := false
+		// the test that directly decides the refusal: the refusal's block hangs off one of its edges through
+		// single-predecessor blocks only
+		for _, c2 := range callsIn(f) {
+			if refusalOf(c2) != "ErrInvalidPartOrder" {
+				continue
+			}
+			B := c2.Block()
+			for n := 0; n < 6 && len(B.Preds) == 1 && B.Preds[0] != ce.ifi.Block() && len(B.Preds[0].Succs) == 1; n++ {
+				B = B.Preds[0]
+			}
+			if len(B.Preds) == 1 && B.Preds[0] == ce.ifi.Block() && ce.ifi.Block().Succs[0] != ce.ifi.Block().Succs[1] {
+				refuseOnTrue, found = ce.ifi.Block().Succs[0] == B, true
+			}
+		}
+		if !found {
+			continue
+		}
+		// value of the raw comparison when both operands are equal
+		eq := false
+		switch ce.binop.Op {
+		case token.LEQ, token.GEQ, token.EQL:
+			eq = true
+		}
+		neg := false
+		for c := ce.ifi.Cond; c != ssa.Value(ce.binop); {
+			u, ok := c.(*ssa.UnOp)
+			if !ok || u.Op != token.NOT {
+				break
+			}
+			neg = !neg
+			c = u.X
+		}
+		if neg {
+			eq = !eq
+		}
+		if eq == refuseOnTrue {
+			okStrict = true
+		}
+	}
+	r.Check(okStrict, "R-C08-8", fnName(f)+"/part-order-strict", p.Pos(f.Pos()), "equal part numbers are refused", "the part-order test lets a part number equal to its predecessor through: a list [1,1,2] is accepted and the object contains part 1 twice")
+}
+
+// ---- R-C17-12: no per-process memo in the request path ---------------------------------------------------------
+
+func more3NoPackageLevelState(p *Program, r *Report) {
+	rule := "R-C17-12"
+	r.Rule(rule, "no per-process memo of request-dependent facts: no function of auth, s3api/utils, s3api/middlewares, s3api/controllers, backend or the posix/scoutfs backends stores into a package-level map or sync.Map, and io.CopyBuffer is never given a package-level buffer (such state is shared by all requests, survives DeleteBucket / secret rotation / the other gateway's writes, and is unsynchronised)", 1)
+	pks := []string{"auth", "s3api/utils", "s3api/middlewares", "s3api/controllers", "backend", "backend/posix"}
+	if p.SSAPkg["backend/scoutfs"] != nil {
+		pks = append(pks, "backend/scoutfs")
+	}
+	isGlobal := func(v ssa.Value) *ssa.Global {
+		for i := 0; i < 4; i++ {
+			switch x := v.(type) {
+			case *ssa.Global:
+				return x
+			case *ssa.UnOp:
+				v = x.X
+				continue
+			case *ssa.FieldAddr:
+				v = x.X
+				continue
+			}
+			break
+		}
+		return nil
+	}
+	n := 0
+	for _, f := range p.FuncsIn(pks...) {
+		if f.Name() == "init" {
+			continue
+		}
+		n++
+		for _, b := range f.Blocks {
+			for _, in := range b.Instrs {
+				var g *ssa.Global
+				what := ""
+				switch x := in.(type) {
+				case *ssa.MapUpdate:
+					g, what = isGlobal(x.Map), "a package-level map"
+				case ssa.CallInstruction:
+					cn := calleeName(x)
+					if strings.HasPrefix(cn, "(*sync.Map).") && (strings.HasSuffix(cn, ".Store") || strings.HasSuffix(cn, ".LoadOrStore") || strings.HasSuffix(cn, ".Swap") || strings.HasSuffix(cn, ".CompareAndSwap")) {
+						if rv := callRecv(x); rv != nil {
+							g, what = isGlobal(rv), "a package-level sync.Map"
+						}
+					}
+					if cn == "io.CopyBuffer" {
+						if a := callArgs(x); len(a) == 3 {
+							g, what = isGlobal(a[2]), "a package-level copy buffer"
+						}
+					}
+					if (cn == "(*sync.Pool).Put" || cn == "(*sync.Pool).Get") && callRecv(x) != nil {
+						// pooled buffers are shared between requests: flagged only when the pooled value is kept in a field
+						// after Put (decided by R-C12-4 / R-C12-7); not reported here
+						_ = cn
+					}
+				}
+				if g != nil && g.Pkg != nil && strings.HasPrefix(g.Pkg.Pkg.Path(), modPath) {
+					r.Viol(rule, fnName(f)+"/"+g.Name(), p.Pos(in.Pos()), "writes "+what+" ("+g.Name()+") on the request path: a verdict, key, ETag or buffer kept there is shared by every request of the process and outlives what it was derived from")
+				}
+			}
+		}
+	}
+	r.Ok(rule, "request-path/no-package-level-state", "-", itoa(n)+" functions scanned")
+}
+
+// ---- R-C11-7: temp files are created where listings never look -------------------------------------------------
+
+func more3TempFilesUnderTmpDir(p *Program, r *Report) {
+	rule := "R-C11-7"
+	r.Rule(rule, "unfinished files are invisible: the directory every posix openTmpFile call is given is built from the temp-directory constant (metaTmpDir / metaTmpMultipartDir), the one name every listing prunes and no version lookup enters", 4)
+	tmp, _ := pkgConstString(p, "backend/posix", "metaTmpDir")
+	n := 0
+	for _, f := range p.FuncsIn("backend/posix") {
+		k := 0
+		for _, c := range callsTo(f, posixP+"openTmpFile") {
+			k++
+			n++
+			args := callArgs(c)
+			ok := false
+			for _, rt := range Origins(args[0], nil) {
+				if rt.Kind == "const" && tmp != "" && strings.HasPrefix(strings.Trim(rt.Desc, `"`), tmp) {
+					ok = true
+				}
+			}
+			r.Check(ok, rule, fnName(f)+"/openTmpFile#"+itoa(k)+":dir", p.Pos(c.Pos()), "under "+tmp, "the temp file is created in a directory that is not under "+tmp+": with the named-temp-file strategy a crash leaves it where listings, version lookups or the multipart code take it for an object, a version or a part")
+		}
+	}
+	if n < 4 {
+		broken("R-C11-7: only %d openTmpFile calls found", n)
+	}
+}
+
+// ---- R-C15-7: read operations do not write ---------------------------------------------------------------------
+
+func more3ReadsDoNotWrite(p *Program, r *Report) {
+	rule := "R-C15-7"
+	r.Rule(rule, "read operations change nothing: the posix implementations of the Backend methods that the operation table classifies as non-mutating (Get*, Head*, List*) reach, through calls inside the package, no attribute store or delete and no file removal, rename or creation (read-only mode lets these requests through)", 15)
+	n := 0
+	ms := p.Methods("backend/posix", "Posix")
+	for _, m := range ms {
+		row, ok := tAction[m.Name()]
+		if !ok || row.mutating || !token.IsExported(m.Name()) {
+			continue
+		}
+		n++
+		bad := ""
+		inUnit := staticCallees(p, m)
+		unit := []*ssa.Function{m}
+		for _, g := range p.FuncsIn("backend/posix") {
+			if g != m && inUnit[fnName(g)] {
+				if _, isOp := tAction[g.Name()]; isOp && g.Signature.Recv() != nil && token.IsExported(g.Name()) {
+					continue // another operation, judged on its own
+				}
+				unit = append(unit, g)
+			}
+		}
+		for _, g := range unit {
+			for _, mc := range metaCallsIn(g) {
+				if mc.method == "StoreAttribute" || mc.method == "DeleteAttribute" || mc.method == "DeleteAttributes" {
+					bad = mc.method + " at " + p.Pos(mc.call.Pos())
+				}
+			}
+			for _, c := range callsTo(g, "os.Remove", "os.RemoveAll", "os.Rename", "os.Mkdir", "os.MkdirAll", "backend.MkdirAll", "os.WriteFile", "os.Create", "os.Chown", "os.Truncate") {
+				bad = calleeName(c) + " at " + p.Pos(c.Pos())
+			}
+		}
+		r.Check(bad == "", rule, fnName(m)+"/no-writes", p.Pos(m.Pos()), "no mutation reachable", "a read operation mutates storage ("+bad+"): a GET/HEAD on a read-only gateway changes what is stored")
+	}
+	if n < 15 {
+		broken("R-C15-7: only %d non-mutating posix methods found in the operation table", n)
+	}
+}
+
+// ---- R-C17-13: the cache's map is never replaced ---------------------------------------------------------------
+
+func more3CacheMapNotReplaced(p *Program, r *Report) {
+	rule := "R-C17-13"
+	r.Rule(rule, "updates and deletes are never lost to the pruner: the account cache's map field is assigned only where the cache is constructed; every other function changes the map in place under the write lock (a pruner that builds a new map and swaps it in discards the updates made meanwhile)", 1)
+	ct := c17CacheType(p)
+	if ct == nil {
+		r.Viol(rule, "auth/cache-type", "auth/iam_cache.go", "cannot find the cache type")
+		return
+	}
+	bad := ""
+	n := 0
+	for _, f := range p.FuncsIn("auth") {
+		for _, b := range f.Blocks {
+			for _, in := range b.Instrs {
+				st, ok := in.(*ssa.Store)
+				if !ok {
+					continue
+				}
+				fa, ok := st.Addr.(*ssa.FieldAddr)
+				if !ok || !types.Identical(derefType(fa.X.Type()), ct) {
+					continue
+				}
+				if _, isMap := st.Val.Type().Underlying().(*types.Map); !isMap {
+					continue
+				}
+				n++
+				// fine when the struct is being built here (the base is a fresh allocation of this function)
+				if al, isAl := fa.X.(*ssa.Alloc); isAl && al.Parent() == f {
+					continue
+				}
+				bad = fnName(f) + " at " + p.Pos(st.Pos())
+			}
+		}
+	}
+	r.Check(n > 0 && bad == "", rule, "auth.cache/map-assigned-once", "auth/iam_cache.go", "the map is assigned in the constructor only", "the cache's map is replaced outside its constructor ("+bad+"): entries updated or deleted between the copy and the swap come back as they were")
+}
+
+// ---- R-C18-10: the proxy tags only the bucket it created --------------------------------------------------------
+
+func more3ProxyCreateThenTag(p *Program, r *Report) {
+	rule := "R-C18-10"
+	r.Rule(rule, "the ACL tag is written only onto a bucket this request created: in s3proxy.CreateBucket the PutBucketTagging call is unreachable once the upstream CreateBucket failed (every gateway user shares the upstream credential: tolerating BucketAlreadyOwnedByYou lets one user overwrite another's bucket ACL)", 1)
+	f := p.Func("(*backend/s3proxy.S3Proxy).CreateBucket")
+	var create ssa.CallInstruction
+	var tagBlocks []*ssa.BasicBlock
+	for _, c := range callsIn(f) {
+		cn := calleeName(c)
+		if strings.HasSuffix(cn, "s3.Client).CreateBucket") {
+			create = c
+		}
+		if strings.HasSuffix(cn, "s3.Client).PutBucketTagging") {
+			tagBlocks = append(tagBlocks, c.Block())
+		}
+	}
+	if create == nil || len(tagBlocks) == 0 {
+		r.Viol(rule, fnName(f)+"/create-then-tag", p.Pos(f.Pos()), "cannot find the upstream CreateBucket and PutBucketTagging calls")
+		return
+	}
+	ok, why := noTargetAfterFailure(f, create, tagBlocks)
+	r.Check(ok, rule, fnName(f)+"/create-then-tag", p.Pos(create.Pos()), "tagging unreachable after a failed create", "the ACL tag is written although the upstream CreateBucket failed ("+why+")")
+}
+
+// ---- R-C19-9 / R-C19-10: the event names the key as requested; one delivery per event ---------------------------
+
+func more3EventKeyVerbatim(p *Program, r *Report) {
+	rule := "R-C19-9"
+	r.Rule(rule, "the notification names the key the request named: in s3event.createEventSchema the object key is cut out of the request path without a normalising call (strings.Trim/TrimSuffix/TrimRight, path.Clean, ToLower ...): directory-object keys end in '/'", 1)
+	f := p.Func("s3event.createEventSchema")
+	norm := ""
+	n := 0
+	for _, ret := range returnsOf(f) {
+		fs, _ := litFields(ret.Results[0])
+		_ = fs
+	}
+	for _, b := range f.Blocks {
+		for _, in := range b.Instrs {
+			st, ok := in.(*ssa.Store)
+			if !ok {
+				continue
+			}
+			fa, ok := st.Addr.(*ssa.FieldAddr)
+			if !ok || fieldName(fa.X.Type(), fa.Field) != "Key" {
+				continue
+			}
+			n++
+			for _, rt := range Origins(st.Val, nil) {
+				if rt.Kind == "via" || rt.Kind == "call" {
+					switch rt.Desc {
+					case "strings.Trim", "strings.TrimSuffix", "strings.TrimRight", "strings.TrimSpace", "path.Clean", "path/filepath.Clean", "path.Join", "path/filepath.Join", "strings.ToLower", "strings.ToUpper", "strings.ReplaceAll":
+						norm = rt.Desc
+					}
+				}
+			}
+		}
+	}
+	r.Check(n > 0 && norm == "", rule, fnName(f)+"/key-verbatim", p.Pos(f.Pos()), "the key is the request's key", "the event's object key goes through "+norm+": a change to the directory object `a/b/` is notified under the different key `a/b`")
+}
+
+func more3OneDeliveryAttempt(p *Program, r *Report) {
+	rule := "R-C19-10"
+	r.Rule(rule, "one notification per event: the senders' delivery call (http Client.Do / Post, kafka WriteMessages, nats Publish) is not inside a loop (a retry after a timeout delivers an event twice to an endpoint that was only slow)", 3)
+	n := 0
+	for _, f := range p.FuncsIn("s3event") {
+		for _, c := range callsIn(f) {
+			cn := calleeName(c)
+			if !(cn == "(*net/http.Client).Do" || cn == "(*net/http.Client).Post" || strings.HasSuffix(cn, ".WriteMessages") || (strings.Contains(cn, "nats") && strings.HasSuffix(cn, ".Publish"))) {
+				continue
+			}
+			if strings.Contains(fnName(f), "Init") {
+				continue // the connectivity test at start-up
+			}
+			n++
+			r.Check(!inCycle(f, c.Block()), rule, fnName(f)+"/"+cn, p.Pos(c.Pos()), "a single attempt", "the delivery call is inside a loop: a notification the endpoint received but answered late is sent again")
+		}
+	}
+	if n < 1 {
+		broken("R-C19-10: no delivery call found in s3event")
+	}
+}
+
+func init() {
+	extraRules["C07"] = append(extraRules["C07"], more3NarrowingProven)
+	extraRules["C20"] = append(extraRules["C20"], more3NarrowingProven)
+}
+
+// ---- R-C20-10: a parsed number is narrowed only when it fits --------------------------------------------------
+
+func intWidth(t types.Type) (bits int, signed, ok bool) {
+	bt, isB := t.Underlying().(*types.Basic)
+	if !isB {
+		return 0, false, false
+	}
+	switch bt.Kind() {
+	case types.Int8:
+		return 8, true, true
+	case types.Int16:
+		return 16, true, true
+	case types.Int32:
+		return 32, true, true
+	case types.Int64, types.Int:
+		return 64, true, true
+	case types.Uint8:
+		return 8, false, true
+	case types.Uint16:
+		return 16, false, true
+	case types.Uint32:
+		return 32, false, true
+	case types.Uint64, types.Uint:
+		return 64, false, true
+	}
+	return 0, false, false
+}
+
+func more3NarrowingProven(p *Program, r *Report) {
+	rule := "R-C20-10"
+	r.Rule(rule, "a number parsed from the request is narrowed only when it fits: every conversion of a strconv-parsed integer to a narrower integer type in s3api/utils (list limits, part numbers) happens where the zone interpreter proves the value inside the target type's range (a max-keys of 2^32 must not wrap to 0, the value that means `answer empty`)", 1)
+	n := 0
+	for _, f := range p.FuncsIn("s3api/utils") {
+		if f.Parent() != nil || !isBackEdgeFree(f) {
+			continue
+		}
+		var convs []*ssa.Convert
+		for _, b := range f.Blocks {
+			for _, in := range b.Instrs {
+				cv, ok := in.(*ssa.Convert)
+				if !ok {
+					continue
+				}
+				fb, _, ok1 := intWidth(cv.X.Type())
+				tb, _, ok2 := intWidth(cv.Type())
+				if !ok1 || !ok2 || tb >= fb {
+					continue
+				}
+				parsed := false
+				for _, rt := range Origins(cv.X, nil) {
+					if rt.Kind == "call" && (strings.HasPrefix(rt.Desc, "strconv.Parse") || rt.Desc == "strconv.Atoi") {
+						parsed = true
+					}
+				}
+				if parsed {
+					convs = append(convs, cv)
+				}
+			}
+		}
+		if len(convs) == 0 {
+			continue
+		}
+		a := runZone(p, f, nil)
+		for i, cv := range convs {
+			n++
+			tb, signed, _ := intWidth(cv.Type())
+			hi := new(big.Int).Sub(new(big.Int).Lsh(big.NewInt(1), uint(tb-1)), big.NewInt(1))
+			lo := new(big.Int).Neg(new(big.Int).Lsh(big.NewInt(1), uint(tb-1)))
+			if !signed {
+				hi = new(big.Int).Sub(new(big.Int).Lsh(big.NewInt(1), uint(tb)), big.NewInt(1))
+				lo = big.NewInt(0)
+			}
+			okHi, w1 := a.impliedAt(cv.Block(), func(pt *part) (lin, bool) {
+				x, ok := a.linIn(cv.X, pt)
+				return x.plus(linConst(hi), -1), ok
+			})
+			okLo, w2 := a.impliedAt(cv.Block(), func(pt *part) (lin, bool) {
+				x, ok := a.linIn(cv.X, pt)
+				return linConst(lo).plus(x, -1), ok
+			})
+			r.Check(okHi && okLo, rule, fnName(f)+"/narrow#"+itoa(i+1), p.Pos(cv.Pos()), "value proven inside the target range", "a parsed number is converted to a narrower integer type without being proven to fit ("+w1+" <= 0, "+w2+" <= 0 not implied): 2^32 becomes 0")
+		}
+	}
+	if n < 1 {
+		broken("R-C20-10: no narrowing conversion of a parsed number found in s3api/utils")
+	}
+}
+
+func init() {
+	extraRules["C10"] = append(extraRules["C10"], more3LockLookupSameTarget)
+}
+
+// ---- R-C10-10: a lock is looked up on the version that is named --------------------------------------------
+
+func more3LockLookupSameTarget(p *Program, r *Report) {
+	rule := "R-C10-10"
+	r.Rule(rule, "the lock that is reported is the lock of the version asked about: in posix GetObjectLegalHold and GetObjectRetention every other look at the object (delete-marker test, attribute read other than the version-id lookup) addresses the same bucket/object values as the read of the lock attribute itself, i.e. the version the version id was resolved to, not the key's current version", 2)
+	for _, w := range []struct{ fn, key string }{{"GetObjectLegalHold", "object-legal-hold"}, {"GetObjectRetention", "object-retention"}} {
+		f := p.Func(posixP + w.fn)
+		var lock ssa.CallInstruction
+		for _, mc := range metaCallsIn(f) {
+			if mc.method == "RetrieveAttribute" && mc.keyArg == w.key {
+				lock = mc.call
+			}
+		}
+		if lock == nil {
+			r.Viol(rule, fnName(f)+"/lock-read", p.Pos(f.Pos()), "cannot find the read of the lock attribute")
+			continue
+		}
+		la := lock.Common().Args
+		bad := ""
+		for _, mc := range metaCallsIn(f) {
+			if mc.call == lock || mc.keyArg == "version-id" {
+				continue
+			}
+			a := mc.call.Common().Args
+			if len(a) >= 3 {
+				if ob, isC := constString(a[2]); isC && ob == "" {
+					continue // a bucket-level attribute
+				}
+			}
+			if len(a) >= 3 && (a[1] != la[1] || a[2] != la[2]) && strings.HasSuffix(mc.method, "Attribute") && mc.method != "ListAttributes" {
+				bad = mc.method + "(" + mc.keyArg + ") at " + p.Pos(mc.call.Pos())
+			}
+		}
+		for _, c := range callsTo(f, posixP+"isObjDeleteMarker") {
+			a := callArgs(c)
+			if len(a) >= 2 && (a[0] != la[1] || a[1] != la[2]) {
+				bad = "isObjDeleteMarker at " + p.Pos(c.Pos())
+			}
+		}
+		r.Check(bad == "", rule, fnName(f)+"/same-target", p.Pos(lock.Pos()), "all looks address the resolved version", "the lock check looks at a different object than the one whose lock it reports ("+bad+"): with a version id given it examines the key's current version, so a delete marker on top makes every older version look unlocked")
+	}
+}
+
+func init() {
+	extraRules["C20"] = append(extraRules["C20"], more3OutputPointerAgreement)
+}
+
+// ---- R-C20-11: what a handler dereferences of a backend result, the posix backend always sets ----------------
+
+func more3OutputPointerAgreement(p *Program, r *Report) {
+	rule := "R-C20-11"
+	r.Rule(rule, "cross-layer pointer agreement, results: every pointer field of a backend result that a controller dereferences without a nil test is set (non-nil) in every result literal the posix implementation of that method returns, also in the ones returned together with an error", 1)
+	hs := s3Handlers(p)
+	type need struct {
+		method, field, at    string
+		onSuccess, onFailure bool // the dereference can happen after the call succeeded / failed
+	}
+	var needs []need
+	seen := map[string]bool{}
+	for _, bc := range backendCalls(hs) {
+		call, ok := bc.call.(*ssa.Call)
+		if !ok {
+			continue
+		}
+		f := bc.fn
+		// the pointer result
+		var res ssa.Value
+		if _, isPtr := call.Type().Underlying().(*types.Pointer); isPtr {
+			res = call
+		} else if call.Referrers() != nil {
+			for _, ref := range *call.Referrers() {
+				if ex, ok := ref.(*ssa.Extract); ok && ex.Index == 0 {
+					if _, isPtr := ex.Type().Underlying().(*types.Pointer); isPtr {
+						res = ex
+					}
+				}
+			}
+		}
+		if res == nil {
+			continue
+		}
+		aliases := aliasesOf(res)
+		for _, b := range f.Blocks {
+			for _, in := range b.Instrs {
+				ld, ok := in.(*ssa.UnOp)
+				if !ok || ld.Op != token.MUL {
+					continue
+				}
+				fa, ok := ld.X.(*ssa.FieldAddr)
+				if !ok {
+					continue
+				}
+				isRes := false
+				for _, a := range aliases {
+					if fa.X == a {
+						isRes = true
+					}
+				}
+				if !isRes {
+					continue
+				}
+				if _, isPtr := ld.Type().Underlying().(*types.Pointer); !isPtr || ld.Referrers() == nil {
+					continue
+				}
+				_, nn := nilTestEdges(ld)
+				for _, ref := range *ld.Referrers() {
+					deref := false
+					switch x := ref.(type) {
+					case *ssa.UnOp:
+						deref = x.Op == token.MUL && x.X == ssa.Value(ld)
+					case *ssa.FieldAddr:
+						deref = x.X == ssa.Value(ld)
+					}
+					if !deref {
+						continue
+					}
+					// guarded by a nil test of this very load, or of another load of the same field
+					var cut []edge
+					cut = append(cut, nn...)
+					for _, b2 := range f.Blocks {
+						for _, in2 := range b2.Instrs {
+							if l2, ok := in2.(*ssa.UnOp); ok && l2.Op == token.MUL {
+								if fa2, ok := l2.X.(*ssa.FieldAddr); ok && fa2.Field == fa.Field && fa2.X == fa.X {
+									_, n2 := nilTestEdges(l2)
+									cut = append(cut, n2...)
+								}
+							}
+						}
+					}
+					if len(cut) > 0 && !reachable(f, nil, cut)[ref.Block()] {
+						continue
+					}
+					fld := fieldName(fa.X.Type(), fa.Field)
+					k := bc.method + "." + fld
+					okE, failE := nilTestEdgesCall(bc.call)
+					onS := len(okE) == 0 || reachable(f, nil, failE)[ref.Block()] // reachable without taking a failure edge
+					onF := len(failE) == 0 || reachable(f, nil, okE)[ref.Block()] // reachable without taking a success edge
+					if !seen[k] {
+						seen[k] = true
+						needs = append(needs, need{bc.method, fld, p.Pos(ref.Pos()), onS, onF})
+					} else {
+						for i := range needs {
+							if needs[i].method == bc.method && needs[i].field == fld {
+								needs[i].onSuccess = needs[i].onSuccess || onS
+								needs[i].onFailure = needs[i].onFailure || onF
+							}
+						}
+					}
+				}
+			}
+		}
+	}
+	sort.Slice(needs, func(i, j int) bool { return needs[i].method+needs[i].field < needs[j].method+needs[j].field })
+	for _, nd := range needs {
+		m := p.FuncOpt(posixP + nd.method)
+		if m == nil {
+			continue
+		}
+		bad := ""
+		nlit := 0
+		for _, ret := range returnsOf(m) {
+			if len(ret.Results) == 0 {
+				continue
+			}
+			rv := ret.Results[0]
+			// a function with deferred calls returns through result cells: the value stored into the cell just
+			// before this return
+			if ld, ok := rv.(*ssa.UnOp); ok && ld.Op == token.MUL {
+				if cell, ok := ld.X.(*ssa.Alloc); ok {
+					if _, isPtrCell := derefType(cell.Type()).Underlying().(*types.Pointer); isPtrCell {
+						rv = nil
+						for _, in := range ret.Block().Instrs {
+							if st, ok := in.(*ssa.Store); ok && st.Addr == ssa.Value(cell) {
+								rv = st.Val
+							}
+						}
+						if rv == nil {
+							continue
+						}
+					}
+				}
+			}
+			if isNilConst(rv) {
+				continue
+			}
+			// is this a success or a failure return?
+			ev := ret.Results[len(ret.Results)-1]
+			if ld, ok := ev.(*ssa.UnOp); ok && ld.Op == token.MUL {
+				if cell, ok := ld.X.(*ssa.Alloc); ok {
+					for _, in := range ret.Block().Instrs {
+						if st, ok := in.(*ssa.Store); ok && st.Addr == ssa.Value(cell) {
+							ev = st.Val
+						}
+					}
+				}
+			}
+			if isNilConst(ev) && !nd.onSuccess {
+				continue
+			}
+			if _, isC := ev.(*ssa.Const); !isC && truthiness(ev, ret.Block()) > 0 && !nd.onFailure {
+				continue
+			}
+			fs, al := litFieldsAt(rv, ret)
+			if al == nil {
+				continue
+			}
+			nlit++
+			vs, set := fs[nd.field]
+			if !set {
+				bad = p.Pos(ret.Pos())
+			}
+			for _, v := range vs {
+				if isNilConst(v) {
+					bad = p.Pos(ret.Pos())
+				}
+			}
+		}
+		r.Check(bad == "", rule, "posix."+nd.method+"/result."+nd.field, nd.at, "set in all "+itoa(nlit)+" result literals", "the controller dereferences result."+nd.field+" of "+nd.method+" without a nil test (at "+nd.at+"), but posix."+nd.method+" returns a result (at "+bad+") that leaves it nil: that request makes the gateway dereference nil and exit")
+	}
+	if len(needs) < 1 {
+		broken("R-C20-11: no unguarded dereference of a backend result field found in the controllers")
+	}
+}
+
+func init() {
+	extraControls["C01"] = append(extraControls["C01"],
+		Control{Name: "createObjVersion hard-links the outgoing version", Rule: "R-C01-8", File: "backend/posix/posix.go",
+			Old: "\tversionTmpPath := filepath.Join(versionBucketPath, metaTmpDir)\n", New: "\tversionTmpPath := filepath.Join(versionBucketPath, metaTmpDir)\n\tif os.Link(filepath.Join(bucket, key), filepath.Join(versionBucketPath, versioningKey)) == nil {\n\t\treturn versionPath, nil\n\t}\n", Expect: "os.Link"})
+	extraControls["C14"] = append(extraControls["C14"],
+		Control{Name: "isAllowed returns at the first matching Allow", Rule: "R-C14-6", File: "auth/bucket_policy.go",
+			Old: "\t\t\t\tisAllowed = true\n", New: "\t\t\t\treturn true\n", Expect: "allow-after-scan"},
+		Control{Name: "Actions.FindMatch answers from the first wildcard it visits", Rule: "R-C14-6", File: "auth/bucket_policy_actions.go",
+			Old: "\t\tif strings.HasSuffix(string(act), \"*\") && act.WildCardMatch(action) {\n\t\t\treturn true\n\t\t}", New: "\t\tif strings.HasSuffix(string(act), \"*\") {\n\t\t\treturn act.WildCardMatch(action)\n\t\t}", Expect: "positive-only-from-loop"})
+	extraControls["C03"] = append(extraControls["C03"],
+		Control{Name: "DeleteObjects: the per-key refusal only ends the loop", Rule: "R-C03-3", File: "s3api/controllers/base.go",
+			Old: "\t\t\t\tObject:        getstring(obj.Key),\n\t\t\t\tAction:        auth.DeleteObjectAction,\n\t\t\t})\n\t\tif err != nil {\n\t\t\treturn SendResponse(ctx, err,\n\t\t\t\t&MetaOpts{\n\t\t\t\t\tLogger:      c.logger,\n\t\t\t\t\tMetricsMng:  c.mm,\n\t\t\t\t\tAction:      metrics.ActionDeleteObjects,\n\t\t\t\t\tBucketOwner: parsedAcl.Owner,\n\t\t\t\t})\n\t\t}\n\t}\n",
+			New: "\t\t\t\tObject:        getstring(obj.Key),\n\t\t\t\tAction:        auth.DeleteObjectAction,\n\t\t\t})\n\t\tif err != nil {\n\t\t\tbreak\n\t\t}\n\t}\n", Expect: "per-key-refusal"})
+	extraControls["C07"] = append(extraControls["C07"],
+		Control{Name: "Walk ends at the first directory that sorts after the prefix", Rule: "R-C07-8", File: "backend/walk.go",
+			Old: "\t\t\t\t\tif prefix != \"\" && !strings.HasPrefix(path+\"/\", prefix) {\n\t\t\t\t\t\treturn skipflag\n\t\t\t\t\t}\n\t\t\t\t\tif pastMax {", New: "\t\t\t\t\tif prefix != \"\" && !strings.HasPrefix(path+\"/\", prefix) {\n\t\t\t\t\t\tif path+\"/\" > prefix {\n\t\t\t\t\t\t\treturn fs.SkipAll\n\t\t\t\t\t\t}\n\t\t\t\t\t\treturn skipflag\n\t\t\t\t\t}\n\t\t\t\t\tif pastMax {", Expect: "SkipAll"},
+		Control{Name: "ParseUint narrows before it checks the range", Rule: "R-C20-10", File: "s3api/utils/utils.go",
+			Old: "\tnum, err := strconv.ParseInt(str, 10, 32)\n", New: "\tnum64, err := strconv.ParseInt(str, 10, 64)\n\tnum := int64(int32(num64))\n", Expect: "narrow"})
+	extraControls["C08"] = append(extraControls["C08"],
+		Control{Name: "CompleteMultipartUpload accepts a repeated part number", Rule: "R-C08-8", File: "backend/posix/posix.go",
+			Old: "\t\tif *part.PartNumber <= partNumber {", New: "\t\tif *part.PartNumber < partNumber {", Expect: "part-order-strict"})
+	extraControls["C17"] = append(extraControls["C17"],
+		Control{Name: "CheckObjectAccess remembers unlocked buckets in a package-level sync.Map", Rule: "R-C17-12", File: "auth/object_lock.go",
+			Old: "func CheckObjectAccess(ctx context.Context, bucket, userAccess string, objects []types.ObjectIdentifier, bypass bool, be backend.Backend) error {\n", New: "var seenBuckets sync.Map\n\nfunc CheckObjectAccess(ctx context.Context, bucket, userAccess string, objects []types.ObjectIdentifier, bypass bool, be backend.Backend) error {\n\tseenBuckets.Store(bucket, true)\n",
+			More: []Edit{{"auth/object_lock.go", "import (\n", "import (\n\t\"sync\"\n"}}, Expect: "seenBuckets"},
+		Control{Name: "gcCache swaps in a pruned copy of the map", Rule: "R-C17-13", File: "auth/iam_cache.go",
+			Old: "\t\ti.Lock()\n\t\t// prune expired entries\n\t\tfor k, v := range i.items {\n\t\t\tif now.After(v.exp) {\n\t\t\t\tdelete(i.items, k)\n\t\t\t}\n\t\t}\n\t\ti.Unlock()", New: "\t\tlive := make(map[string]item)\n\t\ti.RLock()\n\t\tfor k, v := range i.items {\n\t\t\tif !now.After(v.exp) {\n\t\t\t\tlive[k] = v\n\t\t\t}\n\t\t}\n\t\ti.RUnlock()\n\t\ti.Lock()\n\t\ti.items = live\n\t\ti.Unlock()", Expect: "map-assigned-once"})
+	extraControls["C11"] = append(extraControls["C11"],
+		Control{Name: "createObjVersion stages its copy in the key's version directory", Rule: "R-C11-7", File: "backend/posix/posix.go",
+			Old: "\tversionTmpPath := filepath.Join(versionBucketPath, metaTmpDir)\n", New: "\tversionTmpPath := filepath.Join(versionBucketPath, genObjVersionKey(key))\n", Expect: "openTmpFile"})
+	extraControls["C15"] = append(extraControls["C15"],
+		Control{Name: "GetObjectRetention removes an attribute while reading", Rule: "R-C15-7", File: "backend/posix/posix.go",
+			Old: "func (p *Posix) GetObjectRetention(_ context.Context, bucket, object, versionId string) ([]byte, error) {\n\terr := p.doesBucketAndObjectExist(bucket, object)\n", New: "func (p *Posix) GetObjectRetention(_ context.Context, bucket, object, versionId string) ([]byte, error) {\n\t_ = p.meta.DeleteAttribute(bucket, object, \"stale\")\n\terr := p.doesBucketAndObjectExist(bucket, object)\n", Expect: "GetObjectRetention"})
+	extraControls["C18"] = append(extraControls["C18"],
+		Control{Name: "s3proxy CreateBucket tags although the upstream create failed", Rule: "R-C18-10", File: "backend/s3proxy/s3.go",
+			Old: "\t_, err := s.client.CreateBucket(ctx, input)\n\tif err != nil {\n\t\treturn handleError(err)\n\t}\n", New: "\t_, err := s.client.CreateBucket(ctx, input)\n\tif err != nil && !strings.Contains(err.Error(), \"BucketAlreadyOwnedByYou\") {\n\t\treturn handleError(err)\n\t}\n", Expect: "create-then-tag"})
+	extraControls["C19"] = append(extraControls["C19"],
+		Control{Name: "event key trimmed on both sides", Rule: "R-C19-9", File: "s3event/event.go",
+			Old: "\tbucket, object := path[1], strings.Join(path[2:], \"/\")\n", New: "\tbucket, object := path[1], strings.Trim(strings.Join(path[2:], \"/\"), \"/\")\n", Expect: "key-verbatim"},
+		Control{Name: "webhook delivery retried once", Rule: "R-C19-10", File: "s3event/webhook.go",
+			Old: "\t_, err = w.client.Do(req)\n\tif err != nil {\n\t\tif err, ok := err.(net.Error); ok && !err.Timeout() {", New: "\tfor attempt := 0; attempt < 2; attempt++ {\n\t\t_, err = w.client.Do(req)\n\t\tif err == nil {\n\t\t\tbreak\n\t\t}\n\t}\n\tif err != nil {\n\t\tif err, ok := err.(net.Error); ok && !err.Timeout() {", Expect: "Do"})
+	extraControls["C10"] = append(extraControls["C10"],
+		Control{Name: "GetObjectLegalHold tests the current object for a delete marker", Rule: "R-C10-10", File: "backend/posix/posix.go",
+			Old: "func (p *Posix) GetObjectLegalHold(_ context.Context, bucket, object, versionId string) (*bool, error) {\n\terr := p.doesBucketAndObjectExist(bucket, object)\n\tif err != nil {\n\t\treturn nil, err\n\t}\n", New: "func (p *Posix) GetObjectLegalHold(_ context.Context, bucket, object, versionId string) (*bool, error) {\n\terr := p.doesBucketAndObjectExist(bucket, object)\n\tif err != nil {\n\t\treturn nil, err\n\t}\n\tif dm, _ := p.isObjDeleteMarker(bucket, object); dm {\n\t\treturn nil, s3err.GetAPIError(s3err.ErrNoSuchObjectLockConfiguration)\n\t}\n", Expect: "same-target"})
+	extraControls["C20"] = append(extraControls["C20"],
+		Control{Name: "posix.GetObject: delete-marker result without LastModified", Rule: "R-C20-11", File: "backend/posix/posix.go",
+			Old: "\t\t\t\tDeleteMarker: getBoolPtr(true),\n\t\t\t\tLastModified: backend.GetTimePtr(fi.ModTime()),\n\t\t\t}, err\n", New: "\t\t\t\tDeleteMarker: getBoolPtr(true),\n\t\t\t}, err\n", Expect: "LastModified"})
 }
